@@ -20,8 +20,11 @@ import (
 	"bufio"
 	"bytes"
 	"encoding/binary"
+	"errors"
 	"io"
 )
+
+var ErrCorruptedMetadata = errors.New("appendable: corrupted metadata")
 
 type Metadata struct {
 	data map[string][]byte
@@ -50,6 +53,9 @@ func (m *Metadata) ReadFrom(r io.Reader) (int64, error) {
 	lenb, err := readField(r)
 	if err != nil {
 		return 0, err
+	}
+	if len(lenb) != 4 {
+		return 0, ErrCorruptedMetadata
 	}
 	len := int(binary.BigEndian.Uint32(lenb))
 
@@ -107,7 +113,7 @@ func (m *Metadata) PutInt(key string, n int) {
 
 func (m *Metadata) GetInt(key string) (int, bool) {
 	v, ok := m.Get(key)
-	if !ok {
+	if !ok || len(v) < 8 {
 		return 0, false
 	}
 	return int(binary.BigEndian.Uint64(v)), true
@@ -124,7 +130,7 @@ func (m *Metadata) PutBool(key string, v bool) {
 
 func (m *Metadata) GetBool(key string) (bool, bool) {
 	v, ok := m.Get(key)
-	if !ok {
+	if !ok || len(v) < 1 {
 		return false, false
 	}
 	return v[0] != 0, true
@@ -149,13 +155,14 @@ func readField(r io.Reader) ([]byte, error) {
 
 	len := binary.BigEndian.Uint32(lenb[:])
 
-	fb := make([]byte, len)
-	_, err = io.ReadFull(r, fb)
+	// the buffer grows with the data actually present: a corrupted length cannot trigger a huge allocation
+	var fb bytes.Buffer
+	_, err = io.CopyN(&fb, r, int64(len))
 	if err != nil {
 		return nil, err
 	}
 
-	return fb, nil
+	return fb.Bytes(), nil
 }
 
 func writeField(b []byte, w io.Writer) (n int, err error) {
